@@ -6,4 +6,5 @@ Extraction "c13model.ml" extract_anchor pre_num is_utf8 convert utf8_of scalar i
   tk_code lex_all parse_bytes classify_tok tok_loc
   comment_writes cm_find cm_lookup get_line_comment get_str_comment final_comment hover_doc hover hover_with
   spec_attach attach_guard keys_nodup spec_entries gap_ok render_gap
-  file_class file_table file_gaps spec_comment pure_at parse_gap parser_reads_all.
+  file_class file_table file_gaps spec_comment pure_at parse_gap parser_reads_all
+  long_fix_deployed lex_all_v comment_writes_v doc_comment_v hover_v hover_with_v file_class_long file_blocks file_lgaps.
